@@ -837,6 +837,12 @@ def main():
             sec_ac(ck, case)
         with ck.section(f"actor_critic.{case.name},action_depth=1"):
             sec_ac(ck, case, action_depth=1)
+    # three components: block offsets are cumulative sums (a pairwise offset table is right for two components and wrong from the third on)
+    set_dims((2, 3, 2))
+    case3 = SpaceCase("multidiscrete(2,3,2)", MultiDiscrete(DIMS), 7, (7,), jnp.zeros(3, int))
+    with ck.section(f"actor_critic.{case3.name}"):
+        sec_ac(ck, case3)
+    set_dims((2, 3))
     for K in ([3] if not ck.thorough else [3, 5]):
         with ck.section(f"q_policy@K={K}"):
             sec_q(ck, K, [0.1, 0.0, -0.5] + ([1.0, 0.5] if ck.thorough and K == 3 else []))
